@@ -468,7 +468,7 @@ def sym_bad_lines(ctx, rng):
         "Var=WrongSig unsigned 0,8 /f:abc", "Var=WrongSig unsigned 0,8 /o:abc", "Var=WrongSig unsigned 0,8 /min:abc",
         "Var=WrongSig unsigned 0,8 /max:abc", "Var=WrongSig unsigned 0,8 /d:abc", "Var=WrongSig unsigned 0,8 /p:abc",
         "Var=WrongSig signed 0,8 -m /f:1..2",
-        "Mux=WrongMux 0,4 zz", "Mux=WrongMux a,b 1", "Mux=WrongMux 0,x 1", "Mux=WrongMux 0,4 7 -m /f:abc",
+        "Mux=WrongMux 0,4 zz", "Mux=WrongMux a,b 1", "Mux=WrongMux 0,x 1", "Mux=WrongMux 0,4 7 -m /f:abc", "Mux=WrongMux 0,4 7 /f:abc", "Mux=WrongMux 0,4 7 /max:abc",
         "Mux=WrongMux 0,4 7 -m /o:abc", "Mux=WrongMux 0,4 7 -h /min:abc", "Mux=WrongMux 0,4 7 -m /max:abc", "Mux=WrongMux 0,4 1.5",
     ]
     out = [("unknown", l) for l in unknown] + [("truncated", l) for l in truncated] + [("wrongtype", l) for l in wrongtype]
@@ -791,7 +791,7 @@ def plan_file(fi, f, rng, thorough):
             for pi in {0, npos - 1, rng.randrange(npos), rng.randrange(npos)}:
                 singles.append([(pi, k, l)])
     multis = []
-    for _ in range(1500 if thorough else 200):
+    for _ in range(3000 if thorough else 200):
         m = rng.choice([2, 2, 3, 4])
         multis.append([(rng.randrange(npos),) + bad[rng.randrange(len(bad))] for _ in range(m)])
     for c in chunks(singles + multis, 120):
@@ -878,7 +878,7 @@ def run(chk):
     C = cm.canmatrix
     rng = chk.rng
     witnesses(chk)
-    FILES = make_files(rng, 24 if thorough else 8, 24 if thorough else 8, C)
+    FILES = make_files(rng, 60 if thorough else 8, 60 if thorough else 8, C)
     items = []
     for fi, f in enumerate(FILES):
         st = file_state(fi)
@@ -1327,7 +1327,7 @@ def tie(chk, ok, rng, thorough):
         chk.ties["correspondence"] = "not run (build failed)"
         return
     cases = []          # (cmd, groups, fmt, text, info)
-    n_files = 40 if thorough else 12
+    n_files = 120 if thorough else 12
     per_file = 160 if thorough else 70
     for k in range(n_files):
         # ---- DBC ----
